@@ -141,6 +141,7 @@ void OlaServerServiceImpl::GetDmx(
   const DmxBuffer buffer = universe->GetDMX();
   response->set_data(buffer.Get());
   response->set_universe(request->universe());
+  response->set_priority(universe->ActivePriority());
 }
 
 void OlaServerServiceImpl::RegisterForDmx(
